@@ -2,7 +2,7 @@
 # Maintainer tool: for every kept seeded change that has no suite confirmation yet, apply it in its
 # scratch worktree, run the repository's whole test-suite there, record the result in meta.json.
 for d in /verif/seeded/*/; do
-  name=$(basename $d); id=${name%%-*}; wt=/tmp/wt/$id; case "$name" in *-2A-*|*-2B-*) wt=/tmp/wt2/$id;; esac
+  name=$(basename $d); id=${name%%-*}; wt=/tmp/wt/$id; case "$name" in *-2A-*|*-2B-*) wt=/tmp/wt2/$id;; *-3A-*|*-3B-*) wt=/tmp/wt3/$id;; esac
   grep -q '"suite_confirmed"' $d/meta.json && continue
   [ -d $wt ] || { echo "$name: no worktree"; continue; }
   cd $wt && git checkout -q -- . && git apply $d/patch.diff || { echo "$name: patch does not apply"; continue; }
